@@ -433,3 +433,60 @@ pub fn blob_block_read(
         Ok(out)
     })
 }
+
+// ---------------------------------------------------------------- SQL sessions
+
+/// Run `sqls` one after another against a fresh database and return, per statement, the rows as
+/// strings or the error text. `disk = None` uses the in-memory engine; `Some((block, rowset))`
+/// opens an on-disk database in a scratch directory with these target block / RowSet sizes (a
+/// RowSet size smaller than any RowSet keeps the background compactor from merging them). The
+/// database is shut down and reopened before every statement whose index is in `reopen_before`.
+pub fn sql_session(
+    disk: Option<(usize, usize)>,
+    sqls: &[String],
+    reopen_before: &[usize],
+) -> Result<Vec<Result<Vec<Vec<String>>, String>>, String> {
+    use crate::Database;
+    use crate::array::datachunk_to_sqllogictest_string;
+    use crate::storage::SecondaryStorageOptions;
+    guarded(|| {
+        tokio::runtime::Builder::new_multi_thread()
+            .worker_threads(2)
+            .enable_all()
+            .build()
+            .unwrap()
+            .block_on(async {
+                let dir = ScratchDir::new()?;
+                let open = || async {
+                    match disk {
+                        None => Database::new_in_memory(),
+                        Some((block, rowset)) => {
+                            let mut options = SecondaryStorageOptions::default_for_cli();
+                            options.path = dir.path().join("db");
+                            options.target_block_size = block;
+                            options.target_rowset_size = rowset;
+                            Database::new_on_disk(options).await
+                        }
+                    }
+                };
+                let mut db = open().await;
+                let mut out = vec![];
+                for (i, sql) in sqls.iter().enumerate() {
+                    if disk.is_some() && reopen_before.contains(&i) {
+                        db.shutdown().await.map_err(|e| e.to_string())?;
+                        drop(db);
+                        db = open().await;
+                    }
+                    out.push(match db.run(sql).await {
+                        Ok(chunks) => Ok(chunks
+                            .iter()
+                            .flat_map(datachunk_to_sqllogictest_string)
+                            .collect()),
+                        Err(e) => Err(e.to_string().lines().next().unwrap_or("").to_string()),
+                    });
+                }
+                db.shutdown().await.map_err(|e| e.to_string())?;
+                Ok(out)
+            })
+    })
+}
